@@ -30,7 +30,7 @@ def cases(tier, sd):
     for r in range(3 if tier == "quick" else 30):
         out.append(dict(kind='roundtrip', s=[-2, 0, 2, -1, 1][r % 5],
                         lmax=lmax - (r % 3), seed=100 * sd + r))
-    for r in range(4 if tier == "quick" else 60):
+    for r in range(8 if tier == "quick" else 60):
         out.append(dict(kind='interp', seed=100 * sd + r))
     modes = [(2, 2), (2, -1), (3, 0), (4, -3), (2, 0), (3, 3), (5, 2), (4, 4)]
     for r in range(4 if tier == "quick" else 16):
@@ -141,6 +141,21 @@ def _roundtrip_one(spec, res):
     else:
         for (l, m) in alm:
             res['nontrivial'].append(['roundtrip', s, l, m])
+    # the sphere points may come in any array layout (phi-major, flat lists)
+    for lay, tr in (('phi-major', lambda a: np.ascontiguousarray(a.T)), ('flat', lambda a: a.ravel())):
+        try:
+            bl = maths.sYlm_coefficients(s, lmax, tr(f), tr(th), tr(ph), tr(w), dphi)
+            worst = max(abs(bl[k] - back[k]) for k in back)
+        except Exception as e:
+            common.add_violation(res, f"sYlm_coefficients raises for a {lay} point layout",
+                                 {"s": s, "err": repr(e)[:200]})
+            continue
+        res['observations'] += len(back)
+        if not worst <= 1e-10:
+            common.add_violation(res, f"sYlm_coefficients depends on the array layout ({lay})",
+                                 {"s": s, "err": float(worst)})
+        else:
+            res['nontrivial'].append(['layout', lay, s, lmax])
     # a real-dtype field is an ordinary field: same coefficients as its complex copy
     fr = np.ascontiguousarray(f.real)
     a_real = maths.sYlm_coefficients(s, lmax, fr, th, ph, w, dphi)
@@ -172,6 +187,9 @@ def run_interp(spec, res):
     tagbase = ['x'.join(map(str, n))]
     # the field's magnitude must not matter (wave-zone fields are tiny)
     amp = float([1.0, 1e-9, 1e5, 1e-13][int(spec['seed']) % 4])
+    if (int(spec['seed']) // 4) % 2:
+        rnd = -np.abs(rnd)          # a field without positive values
+        amp = min(amp, 1e-9)
     for method in ['linear', 'nearest', 'cubic', 'slinear']:
         if method == 'cubic' and min(n) < 4:
             continue
